@@ -247,7 +247,14 @@ func init() {
 		}
 		for _, b := range in {
 			t := i.byteTerm(b)
-			out = append(out, nib(f.Zext(f.Extract(t, 7, 4), 8)), nib(f.Zext(f.Extract(t, 3, 0), 8)))
+			hi, lo := nib(f.Zext(f.Extract(t, 7, 4), 8)), nib(f.Zext(f.Extract(t, 3, 0), 8))
+			if _, conc := b.(uint8); !conc {
+				// remembered so that hex.DecodeString gives back exactly this byte
+				org := i.hexOrigins()
+				org[i.byteTerm(hi)] = hexOrigin{t, true}
+				org[i.byteTerm(lo)] = hexOrigin{t, false}
+			}
+			out = append(out, hi, lo)
 		}
 		return normStr(out)
 	}
